@@ -124,7 +124,21 @@ def _locate_droplets_in_mask_cartesian(mask: ScalarField) -> Emulsion:
     volumes = ndimage.sum(mask.data, labels, index=indices)
     volumes = np.asanyarray(volumes) * cell_volume
 
-    # connect clusters linked viaperiodic boundary conditions
+    # connect clusters linked via periodic boundary conditions. Since a cluster can
+    # touch the boundaries several times, we collect all links in a union-find structure
+    # that also tracks by how many periods a cluster needs to be shifted (relative to the
+    # root of its group) so that all parts of the group form one contiguous object
+    parent = np.arange(num_labels + 1)
+    shifts = np.zeros((num_labels + 1, grid.num_axes), dtype=int)
+
+    def find_root(i: int) -> tuple[int, np.ndarray]:
+        """Return root of cluster `i` and the shift of this cluster relative to it."""
+        shift = np.zeros(grid.num_axes, dtype=int)
+        while parent[i] != i:
+            shift += shifts[i]
+            i = parent[i]
+        return i, shift
+
     for ax in np.flatnonzero(grid.periodic):  # look at all periodic axes
         # compile list of all boundary points connected along the current axis
         low: list[list[int] | np.ndarray] = []
@@ -140,27 +154,38 @@ def _locate_droplets_in_mask_cartesian(mask: ScalarField) -> Emulsion:
         # iterate over all boundary points
         for l, h in zip(product(*low), product(*high)):
             i_l, i_h = labels[l], labels[h]
-            if i_l > 0 and i_h > 0 and i_l != i_h:
+            if i_l > 0 and i_h > 0:
                 # boundary condition on the low side connects to that of the high side
-                # -> we combine the cluster into one, setting is new position as the
-                # weighted averages of the center of mass
-                v_l, v_h = volumes[i_l - 1], volumes[i_h - 1]
-                pos_l, pos_h = positions[i_l - 1], positions[i_h - 1]
-                pos_h[ax] -= grid.shape[ax]  # wrap around the upper point
-                pos = (pos_l * v_l + pos_h * v_h) / (v_l + v_h)
-                # update both clusters with the new data
-                positions[i_h - 1] = positions[i_l - 1] = pos
-                volumes[i_h - 1] = volumes[i_l - 1] = v_l + v_h
-                labels[labels == i_h] = i_l
+                # -> the cluster on the high side sits one period below the one on the
+                # low side
+                r_l, s_l = find_root(i_l)
+                r_h, s_h = find_root(i_h)
+                if r_l != r_h:
+                    s_l[ax] -= 1
+                    parent[r_h] = r_l
+                    shifts[r_h] = s_l - s_h
+                # otherwise, the clusters have already been linked
+
+    # combine the data of all linked clusters using weighted averages
+    roots = np.zeros(num_labels, dtype=int)
+    volumes_sum = np.zeros(num_labels)
+    positions_sum = np.zeros((num_labels, grid.num_axes))
+    for i in range(1, num_labels + 1):
+        root, shift = find_root(i)
+        roots[i - 1] = root
+        volumes_sum[root - 1] += volumes[i - 1]
+        positions_sum[root - 1] += volumes[i - 1] * (positions[i - 1] + shift * grid.shape)
 
     # determine which clusters are actually present
-    indices = np.array(sorted(set(np.unique(labels)) - {0}))
+    indices = np.unique(roots)
+    volumes = volumes_sum[indices - 1]
+    positions = positions_sum[indices - 1] / volumes[:, np.newaxis]
 
     # create the list of droplets
     positions = grid.normalize_point(grid.transform(positions, "cell", "grid"))
     droplets = (
         SphericalDroplet.from_volume(position, volume)
-        for position, volume in zip(positions[indices - 1], volumes[indices - 1])  # type:ignore
+        for position, volume in zip(positions, volumes)
     )
 
     # filter overlapping droplets (e.g. due to duplicates)
